@@ -343,11 +343,13 @@ Proof. exact (fun pc cur H => conj (lvl_rel_same_level pc cur H) (fun f => lvl_r
 Print Assumptions C18_level_same.
 
 (** ... and a subcommand name or alias (of a subcommand not called [help]) typed where a new argument may
-    start moves BOTH machines to related nodes: the shadow parse descends ([shadow_step]), the parser's
-    token loop stops with the dispatch and [build_subcommand] builds the child *)
-Theorem C18_level_step_sub : forall pc cur tok sc0 pi, lvl_rel pc cur -> assert_app pc = true ->
+    start moves BOTH machines to related nodes: the shadow parse descends ([shadow_step]; [evaf] is the engine's
+    [valid_arg_found]: on a level with [args_conflicts_with_subcommands] no argument of the level may precede),
+    the parser's token loop stops with the dispatch and [build_subcommand] builds the child *)
+Theorem C18_level_step_sub : forall pc cur tok sc0 pi evaf, lvl_rel pc cur -> assert_app pc = true ->
   utf8_valid tok = true -> find_subcommand pc tok = Some sc0 -> c_name sc0 <> s_help ->
-  exists es pc', shadow_step tok cur pi false ValueDone = SNext es 1 false ValueDone /\
+  (is_set s_args_negate_subs pc && evaf) = false ->
+  exists es pc', shadow_step tok cur pi false ValueDone evaf = SNext es 1 false ValueDone false /\
     build_subcommand pc (c_name sc0) = Some pc' /\ lvl_rel pc' es /\
     forall rest pos vaf st, (is_set s_args_negate_subs pc && vaf) = false ->
       exists n', aliases_to sc0 n' = true /\ find_subcommand pc n' = Some sc0 /\
@@ -385,7 +387,7 @@ Print Assumptions C18_lexers_agree.
 (** after an option prefix the engine is back in [ValueDone] - same level, same positional index, not escaped -
     and the parser's token loop is back in [ValuesDone] - same positional counter, `--` not seen *)
 Theorem C18_state_agreement_prefix : forall pc cur pre F, elevel pc cur -> Chain.prefix_ok pc pre F ->
-  (forall pi, shadow_run pre cur pi false ValueDone = SNext cur pi false ValueDone) /\
+  (forall pi vaf, shadow_run pre cur pi false ValueDone vaf = SNext cur pi false ValueDone (vaf || negb (is_nil pre))) /\
   (forall rest pos vaf st, fs_skip st = 0 ->
      parse_loop pc (pre ++ rest) (Chain.lsV pos vaf) st =
      (do st' <- F st; parse_loop pc rest (Chain.lsV pos (vaf || negb (is_nil pre))) st')).
@@ -396,7 +398,7 @@ Print Assumptions C18_state_agreement_prefix.
     exactly where the parser stands in [PSOpt (a_id a)]: the same argument, nothing collected yet *)
 Theorem C18_state_agreement_open : forall pc cur pre F tok a idn,
   elevel pc cur -> Chain.prefix_ok pc pre F -> open_tok pc tok a idn ->
-  (forall pi, shadow_run (pre ++ [tok]) cur pi false ValueDone = SNext cur pi false (Opt a 1)) /\
+  (forall pi vaf, shadow_run (pre ++ [tok]) cur pi false ValueDone vaf = SNext cur pi false (Opt a 1) true) /\
   (forall rest pos vaf st, fs_skip st = 0 ->
      parse_loop pc (pre ++ tok :: rest) (Chain.lsV pos vaf) st =
      (do st' <- F st; do st1 <- resolve_pending pc st';
@@ -537,12 +539,12 @@ Print Assumptions C18_pos_state_none.
 
 (** after `--`: one step of the shadow parse descends on a subcommand name or counts a positional value - no token
     is read as an option; the escape flag stays ... *)
-Theorem C18_escaped_step : forall arg cur pi st,
-  shadow_step arg cur pi true st =
-  match (if try_sub cur st && utf8_valid arg then find_subcommand cur arg else None) with
-  | Some next => SNext next 1 true ValueDone
+Theorem C18_escaped_step : forall arg cur pi st vaf,
+  shadow_step arg cur pi true st vaf =
+  match (if try_sub cur st && negb (is_set s_args_negate_subs cur && vaf) && utf8_valid arg then find_subcommand cur arg else None) with
+  | Some next => SNext next 1 true ValueDone false
   | None => match parse_positional cur pi true st with
-            | Some (st', pi') => SNext cur pi' true st'
+            | Some (st', pi') => SNext cur pi' true st' true
             | None => SPanic 673
             end
   end.
@@ -578,13 +580,14 @@ Print Assumptions C18_escape_only_positionals_refuted.
     [ValueDone] resp. [Pos pos k].  [pline pc line pcf posf vf]: `body_0 n_1 body_1 ... n_k pre_k`, every [n_i] a
     subcommand name/alias read where the parser looks for one ([may_select]: between arguments, or behind the values
     of a multi-valued positional if THE LEVEL REACHED sets [subcommand_precedence_over_arg]); a level with
-    [args_conflicts_with_subcommands] is left only before any of its own arguments; [posf]/[vf]: the parser's
-    positional counter and "an argument was seen" flag at the final level [pcf]. *)
+    [args_conflicts_with_subcommands] is left only before any of its own arguments (behind one, a subcommand NAME is a
+    positional value for both machines: [p18_pos]); [posf]/[vf]: the parser's positional counter and "an argument was
+    seen" flag at the final level [pcf].  [pitems18 c vaf pos pre F pos']: [vaf] is that flag before [pre]. *)
 
 (** STATE AGREEMENT on an item of the wider class: the engine is back in [ValueDone] (same level, same index) and the
     parser's loop is the item's transformer [F], then the loop on the rest in [ValuesDone] *)
 Theorem C18_state_agreement_item18 : forall pc cur toks F, elevel pc cur -> item18 pc toks F ->
-  (forall pi, shadow_run toks cur pi false ValueDone = SNext cur pi false ValueDone) /\
+  (forall pi vaf, shadow_run toks cur pi false ValueDone vaf = SNext cur pi false ValueDone true) /\
   (forall rest pos vaf st, fs_skip st = 0 ->
      parse_loop pc (toks ++ rest) (Chain.lsV pos vaf) st = (do st' <- F st; parse_loop pc rest (Chain.lsV pos true) st')).
 Proof. exact state_agreement_item18. Qed.
@@ -596,7 +599,7 @@ Theorem C18_values_agree : forall pc cur tok f a r vs, elevel pc cur ->
   Chain.no_sub pc tok -> Parser.to_long tok = Some (f, true, None) -> get_long pc f = Some a -> a_takes_value a = true ->
   a_req_eq a = false -> find_arg pc (a_id a) = Some a -> a_num a = Some r ->
   N.of_nat (length vs) < vmax r -> Forall (value_tok pc a) vs ->
-  (forall pi, shadow_run (tok :: vs) cur pi false ValueDone = SNext cur pi false (Opt a (1 + N.of_nat (length vs)))) /\
+  (forall pi evaf, shadow_run (tok :: vs) cur pi false ValueDone evaf = SNext cur pi false (Opt a (1 + N.of_nat (length vs))) true) /\
   (forall rest pos vaf st,
      parse_loop pc (tok :: vs ++ rest) (Chain.lsV pos vaf) st =
      (do st' <- sepm_fn pc ILong a vs st; parse_loop pc rest (mkL (PSOpt (a_id a)) pos true false) st')).
@@ -625,10 +628,10 @@ Print Assumptions C18_find_pos_is_get_pos.
     [pos_index = pos] where the parser's token loop stands in [pst] at the positional counter [pos];
     [ValueDone]/[PSValuesDone], or [Pos pos k]/[PSPos (a_id a)] for the same positional [a] *)
 Theorem C18_state_agreement_positionals : forall pc cur pre F pst pos est, elevel pc cur -> body18 pc pre F pst pos est ->
-  shadow_run pre cur 1 false ValueDone = SNext cur pos false est /\
-  (forall rest vaf st, fs_skip st = 0 ->
-     parse_loop pc (pre ++ rest) (Chain.lsV 1 vaf) st =
-     (do st' <- F st; parse_loop pc rest (mkL pst pos (vaf || negb (is_nil pre)) false) st')) /\
+  shadow_run pre cur 1 false ValueDone false = SNext cur pos false est (negb (is_nil pre)) /\
+  (forall rest st, fs_skip st = 0 ->
+     parse_loop pc (pre ++ rest) (Chain.lsV 1 false) st =
+     (do st' <- F st; parse_loop pc rest (mkL pst pos (negb (is_nil pre)) false) st')) /\
   match est with
   | ValueDone => pst = PSValuesDone
   | Pos i k => i = pos /\ exists a, pst = PSPos (a_id a) /\ find_pos cur pos = Some a /\ get_pos pc pos = Some a /\
@@ -647,6 +650,13 @@ Theorem C18_shadow_pline : forall c0 bin line w after pcf posf vf f b,
                /\ lvl_rel pcf curf.
 Proof. exact shadow_pline. Qed.
 Print Assumptions C18_shadow_pline.
+
+(** ... and the engine's per-level [valid_arg_found] IS the parser's flag [vf] at the final level *)
+Theorem C18_flag_agreement : forall c0 bin line pcf posf vf f b,
+  tree_all unb c0 -> build_full f c0 = BOk b -> pline (build_self (ActionsTop.with_bin c0 bin)) line pcf posf vf ->
+  exists curf, shadow_run line b 1 false ValueDone false = SNext curf posf false ValueDone vf /\ lvl_rel pcf curf.
+Proof. exact flag_agreement. Qed.
+Print Assumptions C18_flag_agreement.
 
 (** END TO END for lines with positional values: every option / subcommand candidate of the class, put in place of the
     word, gives a line that [parse_top] does not reject with UnknownArgument / InvalidSubcommand.  A subcommand
@@ -673,19 +683,27 @@ Theorem C18_wide_classes_decidable :
 Proof. exact wide_classes_decidable. Qed.
 Print Assumptions C18_wide_classes_decidable.
 
-(** [args_conflicts_with_subcommands]: the engine does not model the parser's per-level "an argument was seen" flag.
+(** [args_conflicts_with_subcommands] (repaired engine: it keeps the parser's per-level flag [valid_arg_found]).
     On a level [pc] that sets it, behind arguments [pre] of the level, at a word [tok] naming the subcommand [sc0]:
-    (1) the engine descends, always; (2) [pre = []]: the parser dispatches to the same child; (3) [pre <> []]: the
-    parser does not read [tok] as a subcommand - with a positional left at the counter it takes [tok] as its value
-    and stays at [pc], with none left it rejects the line with ArgumentConflict *)
+    (1) [pre = []]: the engine descends and the parser dispatches to the same child; (2) [pre <> []]: NEITHER machine
+    reads [tok] as a subcommand - the engine counts a positional value and stays at the level; the parser, with a
+    positional left at the counter, takes [tok] as its value and stays at [pc], with none left it rejects the line
+    with ArgumentConflict *)
 Theorem C18_args_conflict_levels : forall pc cur pre F pos tok sc0,
   lvlw pc -> lvl_rel pc cur -> is_set s_args_negate_subs pc = true ->
-  pitems18 pc 1 pre F pos -> utf8_valid tok = true -> find_subcommand pc tok = Some sc0 -> aliases_to sc0 s_help = false ->
-  (exists es pc', shadow_run (pre ++ [tok]) cur 1 false ValueDone = SNext es 1 false ValueDone /\
-                  build_subcommand pc (c_name sc0) = Some pc' /\ lvl_rel pc' es) /\
-  (pre = [] -> forall rest st, exists n', find_subcommand pc n' = Some sc0 /\
-     parse_loop pc (tok :: rest) (Chain.lsV 1 false) st = ROk (LSub n' false false st rest)) /\
-  (pre <> [] -> ChainWide.plain_tok tok -> forall rest st, fs_skip st = 0 ->
+  pitems18 pc false 1 pre F pos -> utf8_valid tok = true -> find_subcommand pc tok = Some sc0 -> aliases_to sc0 s_help = false ->
+  (pre = [] ->
+     (exists es pc', shadow_step tok cur 1 false ValueDone false = SNext es 1 false ValueDone false /\
+                     build_subcommand pc (c_name sc0) = Some pc' /\ lvl_rel pc' es) /\
+     forall rest st, exists n', find_subcommand pc n' = Some sc0 /\
+       parse_loop pc (tok :: rest) (Chain.lsV 1 false) st = ROk (LSub n' false false st rest)) /\
+  (pre <> [] -> ChainWide.plain_tok tok ->
+     shadow_run (pre ++ [tok]) cur 1 false ValueDone false =
+       match parse_positional cur pos false ValueDone with
+       | Some (st, pi) => SNext cur pi false st true
+       | None => SPanic 673
+       end /\
+     forall rest st, fs_skip st = 0 ->
      (forall a, ChainWide.takes_at pc pos a tok ->
         parse_loop pc (pre ++ tok :: rest) (Chain.lsV 1 false) st =
         (do st' <- F st; do st'' <- ChainWide.pos_push pc a tok st'; parse_loop pc rest (ChainWide.after_pos a pos) st'')) /\
@@ -696,19 +714,23 @@ Theorem C18_args_conflict_levels : forall pc cur pre F pos tok sc0,
 Proof. exact args_conflict_levels. Qed.
 Print Assumptions C18_args_conflict_levels.
 
-(** the witnesses (same on the real crate, corpus/C18/accept.args-conflict.cases).  W1, `p(-f; args_conflicts) -> sub`:
-    `p -f <TAB>` offers the subcommand `sub`, the parser rejects `p -f sub` with ArgumentConflict, the engine is at `sub`
-    behind it.  W2, the same with a positional <file>: the parser ACCEPTS `p -f sub` (`sub` is the value of <file>), the
-    engine stands at `sub` and offers `--opt` (id arg::opt), and `p -f sub --opt` is rejected with UnknownArgument:
-    an OPTION candidate the parser rejects as unknown, behind a line it accepts *)
-Theorem C18_args_conflict_refuted :
+(** BEFORE / AFTER the repair (finding C18-args-conflict; corpus/C18/accept.args-conflict.cases).  W2,
+    `p(-f; <file>; args_conflicts) -> sub(--opt)`: the parser ACCEPTS `p -f sub` (`sub` is the value of <file>) and rejects
+    `p -f sub --opt` with UnknownArgument; BEFORE the repair the engine ([complete_model_before_fix]) stood at `sub` and
+    offered `--opt` (id arg::opt); AFTER it stands at `p` and does not.  W1 (no positional; unchanged): `p -f <TAB>` offers
+    the subcommand `sub`, which the parser rejects with ArgumentConflict (not an unknown-token kind) *)
+Theorem C18_args_conflict_before_after :
+  Conflict.accepted (parse_top Conflict.c2 [[112]; Conflict.f; Conflict.w_sub]) = true /\
+  Conflict.kind_of (parse_top Conflict.c2 [[112]; Conflict.f; Conflict.w_sub; 45 :: 45 :: Conflict.w_opt]) = Some EUnknownArgument /\
+  Conflict.level_at_before_fix Conflict.c2 [[112]; Conflict.f; Conflict.w_sub; [45; 45]] 3 = Some Conflict.w_sub /\
+  Conflict.has_cand (45 :: 45 :: Conflict.w_opt) (IdArg Conflict.w_opt)
+    (complete_model_before_fix [] Conflict.c2 [[112]; Conflict.f; Conflict.w_sub; [45; 45]] 3) = true /\
+  Conflict.level_at Conflict.c2 [[112]; Conflict.f; Conflict.w_sub; [45; 45]] 3 = Some [112] /\
+  Conflict.has_cand (45 :: 45 :: Conflict.w_opt) (IdArg Conflict.w_opt)
+    (complete_model [] Conflict.c2 [[112]; Conflict.f; Conflict.w_sub; [45; 45]] 3) = false /\
   Conflict.has_cand Conflict.w_sub (IdCmd Conflict.w_sub) (complete_model [] Conflict.c1 [[112]; Conflict.f; []] 2) = true /\
   Conflict.kind_of (parse_top Conflict.c1 [[112]; Conflict.f; Conflict.w_sub]) = Some EArgumentConflict /\
-  Conflict.level_at Conflict.c1 [[112]; Conflict.f; Conflict.w_sub; []] 3 = Some Conflict.w_sub /\
-  Conflict.accepted (parse_top Conflict.c2 [[112]; Conflict.f; Conflict.w_sub]) = true /\
-  Conflict.level_at Conflict.c2 [[112]; Conflict.f; Conflict.w_sub; [45; 45]] 3 = Some Conflict.w_sub /\
-  Conflict.has_cand (45 :: 45 :: Conflict.w_opt) (IdArg Conflict.w_opt)
-    (complete_model [] Conflict.c2 [[112]; Conflict.f; Conflict.w_sub; [45; 45]] 3) = true /\
-  Conflict.kind_of (parse_top Conflict.c2 [[112]; Conflict.f; Conflict.w_sub; 45 :: 45 :: Conflict.w_opt]) = Some EUnknownArgument.
-Proof. exact args_conflict_refuted. Qed.
-Print Assumptions C18_args_conflict_refuted.
+  Conflict.level_at_before_fix Conflict.c1 [[112]; Conflict.f; Conflict.w_sub; []] 3 = Some Conflict.w_sub /\
+  Conflict.level_at Conflict.c1 [[112]; Conflict.f; Conflict.w_sub; []] 3 = Some [112].
+Proof. exact args_conflict_before_after. Qed.
+Print Assumptions C18_args_conflict_before_after.
